@@ -9,9 +9,48 @@ import (
 	"time"
 	"unsafe"
 
+	"github.com/aws/aws-sdk-go/aws"
+	"github.com/aws/aws-sdk-go/aws/credentials"
+	awssession "github.com/aws/aws-sdk-go/aws/session"
+	"github.com/aws/aws-sdk-go/service/cognitoidentityprovider"
 	"github.com/buzzfeed/sso/internal/auth/circuit"
 	admin "google.golang.org/api/admin/directory/v1"
 )
+
+// VerifUseRealCognitoAdminService points the user-pool client inside the admin service that
+// NewAmazonCognitoProvider built at the given HTTP client (no retries, no real endpoint) and freezes the
+// provider's breaker clock; everything else about the admin service stays as production code made it.
+func VerifUseRealCognitoAdminService(p *AmazonCognitoProvider, client *http.Client) error {
+	sess, err := awssession.NewSession(&aws.Config{
+		Region:      aws.String("us-east-1"),
+		Endpoint:    aws.String("http://cognito.invalid"),
+		DisableSSL:  aws.Bool(true),
+		MaxRetries:  aws.Int(0),
+		Credentials: credentials.NewStaticCredentials("id", "secret", ""),
+	})
+	if err != nil {
+		return err
+	}
+	cas, ok := p.AdminService.(*CognitoAdminService)
+	if !ok {
+		pool := "pool"
+		cas = &CognitoAdminService{cb: p.cb, userPoolID: &pool}
+		p.AdminService = cas
+	}
+	// (the HTTP client is set on the service client, not the session: a session refuses a custom transport when
+	// the environment names a CA bundle)
+	cas.adminService = cognitoidentityprovider.New(sess, &aws.Config{HTTPClient: client})
+	for _, holder := range []interface{}{p, cas} {
+		v := reflect.ValueOf(holder).Elem()
+		for i := 0; i < v.NumField(); i++ {
+			f := v.Field(i)
+			if f.Type() == reflect.TypeOf((*circuit.Breaker)(nil)) && !f.IsNil() {
+				reflect.NewAt(f.Type(), unsafe.Pointer(f.UnsafeAddr())).Elem().Interface().(*circuit.Breaker).VerifFreezeClock(time.Date(2030, 1, 1, 0, 0, 0, 0, time.UTC))
+			}
+		}
+	}
+	return nil
+}
 
 // VerifRelaxClientTimeouts replaces the identity-provider client's short wall-clock timeouts (5 s total,
 // 2 s dial) with generous ones, so that a heavily loaded machine cannot turn a scripted answer into a
